@@ -801,6 +801,29 @@ fn one(text: &str) {
     }
 }
 
+/// `deep <kind> <n>`: nesting probe, run by the check in a CHILD process because the observation of
+/// interest is death by signal (stack overflow).  Parses, matches and drops a pattern whose operators
+/// are nested n deep on a thread with Rust's default thread stack (2 MiB, as used by tokio workers).
+fn deep(kind: &str, n: usize) {
+    let text = match kind {
+        "paren" => format!("{}1{}", "(".repeat(n), ")".repeat(n)),
+        "postfix" => format!("1{}", "?".repeat(n)),
+        _ => format!("{}1", "(1|".repeat(n)) + &")".repeat(n),
+    };
+    let h = std::thread::spawn(move || {
+        let hop = PathPolicyHop { isd_asn: IsdAsn::new(Isd(1), Asn(1)), ingress: 0, egress: 0 };
+        match HopPatternPolicy::parse(&text) {
+            Ok(p) => {
+                let r = p.matches(&[hop]);
+                drop(p);
+                println!("parsed, matches={r}");
+            }
+            Err(e) => println!("rejected: {}", e.message),
+        }
+    });
+    let _ = h.join();
+}
+
 fn main() {
     vh_core::quiet_panics();
     let args: Vec<String> = std::env::args().collect();
@@ -808,6 +831,7 @@ fn main() {
         Some("replay") if args.len() >= 4 => replay(&args[2], &args[3]),
         Some("record") if args.len() >= 4 => record(&args[2], &args[3]),
         Some("one") if args.len() >= 3 => one(&args[2]),
+        Some("deep") if args.len() >= 4 => deep(&args[2], args[3].parse().unwrap_or(0)),
         _ => {
             eprintln!("usage: replay <cases.ndjson> <result.json> | record <trace.ndjson> <result.json> | one <text>");
             std::process::exit(2);
